@@ -5,7 +5,9 @@
   request : {"op":"comp","proc":<proc as exported by harness/export_ir.py, AFTER MemoryAnalysis>,
              "bounds":[[[name,id],lo|null,hi|null],...],   -- range_env of the size arguments
              "ctype":"float","short":"f32"}
-  answer  : {"ok":[line,...],"modOK":bool}      the body lines `compL` + printer produce
+  answer  : {"ok":[line,...],"modOK":bool,"freeOK":bool}   the body lines `compL` + printer produce, the ghost
+                                                 F6 flag, and whether the emitted body satisfies the static
+                                                 `free` discipline `CompileS.freeOK` (false = F7 situation)
           | {"unsupported":why}                  outside the covered fragment
           | {"raise":why}                        the model says the real compiler raises
           | {"bad":msg}                          malformed request
@@ -36,7 +38,8 @@ def handle (line : String) : Json :=
           let bounds ← parseBounds (← fld j "bounds")
           let pr : CompileS.Prec := ⟨← str (← fld j "ctype"), ← str (← fld j "short")⟩
           match printP pr p bounds with
-          | .ok (ls, k) => pure (Json.mkObj [("ok", .arr (ls.map Json.str).toArray), ("modOK", .bool k)])
+          | .ok (ls, k, fo) => pure (Json.mkObj [("ok", .arr (ls.map Json.str).toArray), ("modOK", .bool k),
+              ("freeOK", .bool fo)])
           | .error e =>
               if e.startsWith "unsupported:" then pure (Json.mkObj [("unsupported", .str e)])
               else pure (Json.mkObj [("raise", .str e)])
